@@ -49,7 +49,7 @@ fn outline_min(a: usize, b: usize) -> (r: usize)
 }
 
 //@ extract: impl VariableParserExtension<'a> / fn parse_vec_dequeue_inner
-//@   fragment: `let cap = if el_type_size == 0 {` .. `(wrapped_start..cap, 0..tail_len) };`
+//@   fragment: `let cap = if el_type_size == 0 {` .. `^let data_ptr`
 //@   sig: fn deque_ring(el_type_size: usize, real_cap: usize, head_field: usize, len: usize) -> (r: (core::ops::Range<usize>, core::ops::Range<usize>))
 //@   tail: slice_ranges
 //@   ensures E_count: (r.0.end - r.0.start) + (r.1.end - r.1.start) <= len && r.0.start <= r.0.end && r.1.start <= r.1.end
